@@ -108,7 +108,11 @@ bool rsValuesFacet::SetBasicText(const EntityUID target, const TextInterpretatio
   } else if (!IsBaseSet(core.GetRS(target).type)) {
     return false;
   } else {
-    const auto dataChange = std::ssize(newInterp) != std::ssize(*TextFor(target));
+    const auto& oldInterp = *TextFor(target);
+    // Note: set of elements changes when set of keys changes, not only when their count changes
+    const auto dataChange = !std::equal(std::begin(newInterp), std::end(newInterp),
+                                        std::begin(oldInterp), std::end(oldInterp),
+                                        [](const auto& lhs, const auto& rhs) { return lhs.first == rhs.first; });
     if (!SetTextInternal(target, newInterp)) {
       return false;
     } else {
